@@ -33,14 +33,20 @@ func c17(c *core.Ctx, r *core.Report) {
 			continue
 		}
 		var get, um *ssa.Call
-		for _, ci := range core.Calls(p.Props) {
-			if call, ok := ci.(*ssa.Call); ok {
-				if core.IsInvoke(call.Common(), ro.BinderGet) {
-					get = call
+		for _, f := range p.Body { // the method or the helper its loop body was moved into
+			var g, u *ssa.Call
+			for _, ci := range core.Calls(f) {
+				if call, ok := ci.(*ssa.Call); ok {
+					if core.IsInvoke(call.Common(), ro.BinderGet) {
+						g = call
+					}
+					if core.IsCallTo(call.Common(), unm) {
+						u = call
+					}
 				}
-				if core.IsCallTo(call.Common(), unm) {
-					um = call
-				}
+			}
+			if g != nil && u != nil {
+				get, um = g, u
 			}
 		}
 		cons := "prefix-path:" + p.Name()
@@ -75,6 +81,21 @@ func c17(c *core.Ctx, r *core.Report) {
 		call *ssa.Call
 		fn   *ssa.Function
 	}
+	// sites are named by the processor whose stage they belong to (whatever helper or callback they sit in)
+	owner := map[*ssa.Function]*procInfo{}
+	for _, p := range ps {
+		for _, f := range p.Body {
+			if owner[f] == nil {
+				owner[f] = p
+			}
+		}
+	}
+	where := func(fn *ssa.Function) string {
+		if p := owner[fn]; p != nil {
+			return p.Name()
+		}
+		return core.FnName(fn)
+	}
 	var parses, formats []site
 	for _, fn := range c.Scope {
 		for _, ci := range core.Calls(fn) {
@@ -108,38 +129,45 @@ func c17(c *core.Ctx, r *core.Report) {
 		}
 		if reach {
 			reaching = append(reaching, p)
-			r.Fail("C17.R2", "ParseAny@"+core.FnName(p.fn)+"→Unmarshall", c.Pos(p.call.Pos()),
+			r.Fail("C17.R2", "ParseAny@"+where(p.fn)+"→Unmarshall", c.Pos(p.call.Pos()),
 				"tag text is re-typed by strconv2.ParseAny before it is decoded into the field: a string-typed field receives the re-rendered value (\"1.10\" -> \"1.1\", \"007\" -> \"7\", \"TRUE\" -> \"1\")")
 			// the parsed text is the property's TagVal as is
-			r.Check(propFieldLoad(c, p.call.Common().Args[0], "TagVal"), "C17.R6", "value-path-reads-TagVal:"+core.FnName(p.fn), c.Pos(p.call.Pos()), "the value path parses exactly Property.TagVal (the text after placeholder and expression substitution)")
+			r.Check(propFieldLoad(c, p.call.Common().Args[0], "TagVal"), "C17.R6", "value-path-reads-TagVal:"+where(p.fn), c.Pos(p.call.Pos()), "the value path parses exactly Property.TagVal (the text after placeholder and expression substitution)")
 		}
 	}
 	// FormatAny texts that can reach TagVal (through a ReplaceAllContent callback result) and from there a reaching ParseAny
 	elReplace := c.IfaceMethod("util/el", "Helper", "ReplaceAllContent")
 	for _, f := range formats {
-		// the formatted text is returned by a literal passed to ReplaceAllContent whose result is stored to TagVal
-		lit := f.fn
-		if lit.Parent() == nil {
+		// the formatted text is returned by the callback the owning stage hands to ReplaceAllContent (a literal or a
+		// method value), and that stage stores the substituted text to TagVal
+		q := owner[f.fn]
+		if q == nil {
 			continue
 		}
 		returned := false
-		for _, ret := range core.Returns(lit) {
-			if len(ret.Results) > 0 && core.Norm(ret.Results[0]) == core.ResultValue(f.call, 0) {
-				returned = true
+		for _, ret := range core.Returns(f.fn) {
+			if len(ret.Results) > 0 {
+				for _, o := range core.Origins(ret.Results[0], nil) {
+					if o == core.ResultValue(f.call, 0) {
+						returned = true
+					}
+				}
 			}
 		}
 		if !returned {
 			continue
 		}
 		toTagVal := false
-		for _, ci := range core.Calls(lit.Parent()) {
-			call, ok := ci.(*ssa.Call)
-			if !ok || !core.IsInvoke(call.Common(), elReplace) || core.ClosureOf(call.Common().Args[1]) != lit {
-				continue
-			}
-			for _, st := range storesToPropField(c, []*ssa.Function{lit.Parent()}, "TagVal") {
-				if core.Norm(st.Val) == core.ResultValue(call, 0) {
-					toTagVal = true
+		for _, h := range q.Body {
+			for _, ci := range core.Calls(h) {
+				call, ok := ci.(*ssa.Call)
+				if !ok || !core.IsInvoke(call.Common(), elReplace) || resolveWrapper(core.ClosureOf(call.Common().Args[1])) != f.fn {
+					continue
+				}
+				for _, st := range storesToPropField(c, q.Body, "TagVal") {
+					if core.Norm(st.Val) == core.ResultValue(call, 0) {
+						toTagVal = true
+					}
 				}
 			}
 		}
@@ -157,7 +185,7 @@ func c17(c *core.Ctx, r *core.Report) {
 			if !propFieldLoad(c, p.call.Common().Args[0], "TagVal") {
 				continue
 			}
-			key := "FormatAny@" + core.FnName(f.fn) + "→TagVal→ParseAny@" + core.FnName(p.fn)
+			key := "FormatAny@" + where(f.fn) + "→TagVal→ParseAny@" + where(p.fn)
 			r.Fail("C17.R3", key, c.Pos(f.call.Pos()), "a "+src+" is rendered to text, spliced into the tag and parsed again before decoding: binding through a value placeholder / prop shorthand is not the identity on strings that look like numbers or booleans")
 		}
 	}
